@@ -487,6 +487,9 @@ func c02LaneFiles(t *testing.T, r *sim.Run) {
 		if T.Intn(3, "labeled") == 0 {
 			a.labeled = true
 			a.label = []string{"L0", "L1", "go1.21/old", "a/b/c", "x.y", "é"}[T.Intn(6, "labelname")]
+			if T.Intn(6, "label-is-path") == 0 {
+				a.label = a.path // a label spelled like the path is still a label: used verbatim, never numbered
+			}
 			a.arg = a.label + "=" + a.path
 		} else {
 			a.arg = a.path
@@ -515,18 +518,29 @@ func c02LaneFiles(t *testing.T, r *sim.Run) {
 	// Files exposes one Scan loop over all files: build the whole expected sequence
 	var want []*refRec
 	var labels []map[string]string
+	// a path that cannot be read: the sequence either ends there or carries on with the remaining files (the statement
+	// prescribes neither); in both cases Err() tells, and what is delivered is what the files that were read hold
 	failAt := -1
+	nStop := -1
+	stops := map[int]bool{}
 	for i, a := range args {
 		if a.idx < 0 {
-			failAt = i
-			r.Fault(map[int]string{-1: "missing-file", -2: "directory-as-file"}[a.idx])
-			break
+			if failAt < 0 {
+				failAt = i
+				nStop = len(want)
+				r.Fault(map[int]string{-1: "missing-file", -2: "directory-as-file"}[a.idx])
+			}
+			stops[len(want)] = true // the sequence may end at any argument that cannot be read
+			continue
 		}
 		recs := ref.parseFile(a.path, string(texts[a.idx]))
 		for range recs {
 			labels = append(labels, map[string]string{".file": a.label})
 		}
 		want = append(want, recs...)
+	}
+	if nStop < 0 {
+		nStop = len(want)
 	}
 	n := 0
 	limit := 10
@@ -546,8 +560,12 @@ func c02LaneFiles(t *testing.T, r *sim.Run) {
 		st.checkRecord(files.Result(), want[n], n, "files")
 		n++
 	}
-	if n < len(want) {
-		r.Fail("records", "files/missing-record", "Files stopped after %d records, the format prescribes %d; next expected: %s (Err=%v)", n, len(want), want[n], files.Err())
+	if n != len(want) && !stops[n] {
+		next := "-"
+		if n < len(want) {
+			next = want[n].String()
+		}
+		r.Fail("records", "files/missing-record", "Files stopped after %d records; the files before the unreadable one hold %d, all readable ones %d; next expected: %s (Err=%v)", n, nStop, len(want), next, files.Err())
 	}
 	if failAt >= 0 {
 		if files.Err() == nil {
